@@ -174,8 +174,10 @@ Section Host.
   (** The world: does the server program [command] answer initialize?
       (External code — the configured server itself.) *)
   Variable answers : str -> bool.
-  (** The host process's own environment ([os.environ]). *)
-  Variable host : envt.
+  (** What [get_default_environment()] returns in the host process (it reads
+      [os.environ]; modelled above as [default_env], and taken here as a
+      parameter so that nothing below depends on which variables it inherits). *)
+  Variable denv : envt.
 
   (** [StdioClient(server)]: reads [server.command], [server.args]. *)
   Definition stdio_client (d : dyn) : result params :=
@@ -192,7 +194,7 @@ Section Host.
     {| l_argv := p_command p :: p_args p;
        l_env := match p_env p with
                 | Some (b :: r) => b :: r
-                | _ => default_env host
+                | _ => denv
                 end |}.
 
   (** [stdio_client(d)] entered, then [send_initialize]: the processes started
